@@ -7,6 +7,7 @@ package main
 
 import (
 	"context"
+	"errors"
 	"fmt"
 	"io"
 	"log/slog"
@@ -93,6 +94,10 @@ func (t *teeAgg) Report(s core.Sample) {
 type engOpts struct {
 	dbg   bool
 	phout bool
+	// round 3: cancel the run's context cancelDelay after cancelOn is closed; wait extraWait longer for the instances
+	cancelOn    <-chan struct{}
+	cancelDelay time.Duration
+	extraWait   time.Duration
 }
 
 func optsOf(m map[string]string) engOpts {
@@ -138,7 +143,7 @@ func parsePhout(data string) ([]shot.Snap, error) {
 //
 // Without either option: shot.RunEngine (nop logger, recording aggregator).
 func runEngineOpt(conf string, o engOpts, timeout time.Duration) shot.Result {
-	if !o.dbg && !o.phout {
+	if !o.dbg && !o.phout && o.cancelOn == nil {
 		return shot.RunEngine(conf, timeout)
 	}
 	shot.Init()
@@ -185,8 +190,22 @@ func runEngineOpt(conf string, o engOpts, timeout time.Duration) shot.Result {
 	done := make(chan error, 1)
 	go func() { done <- eng.Run(ctx) }()
 	class := "ok"
+	trig := o.cancelOn
+	cancelled := false
+	var deadline <-chan time.Time = time.After(timeout)
+wait:
 	select {
+	case <-trig:
+		// the target has answered the watched step: the gun is (about to be) inside that step's pause
+		trig = nil
+		time.Sleep(o.cancelDelay)
+		cancel()
+		cancelled = true
+		goto wait
 	case err := <-done:
+		if err != nil && cancelled && errors.Is(err, context.Canceled) {
+			err = nil
+		}
 		if err != nil {
 			class = "err:" + strings.Join(strings.Fields(err.Error()), "_")
 			if i := strings.Index(err.Error(), "shoot panic: "); i >= 0 {
@@ -199,7 +218,7 @@ func runEngineOpt(conf string, o engOpts, timeout time.Duration) shot.Result {
 				class = class[:100]
 			}
 		}
-	case <-time.After(timeout):
+	case <-deadline:
 		class = "hang"
 	}
 	cancel()
@@ -208,11 +227,14 @@ func runEngineOpt(conf string, o engOpts, timeout time.Duration) shot.Result {
 	waited := true
 	select {
 	case <-w:
-	case <-time.After(2 * time.Second):
+	case <-time.After(2*time.Second + o.extraWait):
 		waited = false
 	}
 	snaps := rec.Snapshot()
 	if !o.phout {
+		if !waited && o.cancelOn != nil && class == "ok" {
+			class = "hang" // the cancelled shot has not come to its end: the samples may be incomplete
+		}
 		return shot.Result{Class: class, Samples: snaps}
 	}
 	if !waited && class == "ok" {
